@@ -124,7 +124,10 @@ func runTotal(c, s string) (isErr bool) {
 		_ = doc.GetMetadata()
 		// the whole pipeline: the numbers read from the attributes (colspan / rowspan / span, start, size ...)
 		// are USED by the table grid and the layout; a value outside what that code expects crashes there
-		_ = layout.Layout(doc, nil, true, workerFonts())
+		// (job.X = 1: box generation only -- documents asking for a 1000-column grid, whose layout takes seconds)
+		if !noLayout {
+			_ = layout.Layout(doc, nil, true, workerFonts())
+		}
 		return false
 	case "metadata":
 		// utils.GetHtmlMetadata: <title>, <meta name content> (keywords, dates ...), <link rel=attachment>
@@ -151,6 +154,8 @@ func runTotal(c, s string) (isErr bool) {
 	}
 	panic("unknown component " + c)
 }
+
+var noLayout bool // set per job by handle
 
 var fontsOnce text.FontConfiguration
 
@@ -427,6 +432,7 @@ func handle(in string) string {
 	if _, total := components[j.C]; total {
 		var isErr bool
 		lastErr = ""
+		noLayout = j.X == 1
 		o := render.Guard(func() { isErr = runTotal(j.C, j.S) })
 		res = fin(res, o, isErr)
 		if res.St == "err" && len(lastErr) > 0 {
